@@ -55,7 +55,17 @@ Rows == {
   R("int64", "str:7", "7"), R("int32", "float:7", "7"), R("float32", "str:0.5", "0.5"),
   R("int64+global:plus1000", "int:7", "1007"), R("int32+global:plus1000", "str:7", "1007"),
   R("float+globalf:plus1000", "str:7", "1007"), R("float32+globalf:plus1000", "int:7", "1007"),
-  R("slice-int+coercer:split", "str:3;1;2", "[3 1 2]") }
+  R("slice-int+coercer:split", "str:3;1;2", "[3 1 2]"),
+  \* ... whatever the Go type of the input, also when it already is the destination's type, and through Ptr for the pointed-to schema
+  R("time+coercer:plus1h", "time:native", "2020-01-02T04:04:05Z"), R("time+coercer:plus1h", "str:rfc3339", "2020-01-02T04:04:05Z"),
+  R("string+coercer:upper", "str:hello", "HELLO"), R("string+coercer:upper", "int:42", "42"),
+  R("bool+coercer:negate", "bool:true", "false"), R("bool+coercer:negate", "str:on", "false"),
+  R("float+coercer:plus100", "float:0.25", "100.25"), R("float+coercer:plus100", "str:1.5", "101.5"),
+  R("ptr-int+coercer:plus100", "int:7", "107"), R("ptr-int+coercer:plus100", "str:7", "107"), R("ptr-int-beside-coercer", "str:7", "7") }
+
+CoercerDests == {"int+coercer:plus100", "int-beside-coercer", "slice-int+coercer:split", "time+coercer:plus1h", "string+coercer:upper",
+                 "bool+coercer:negate", "float+coercer:plus100", "ptr-int+coercer:plus100", "ptr-int-beside-coercer"}
+IsCoercerRow(d) == d \in CoercerDests
 
 \* the table is a function of (dest, src)
 TableOK == \A a, b \in Rows : (a.dest = b.dest /\ a.src = b.src) => a.expect = b.expect
@@ -77,7 +87,11 @@ TRow ==
   /\ LET t == Trace[l]  want == Expect(t.dest, t.src) IN
      TLCSet(1, TLCGet(1) \o (IF t.got # want
         THEN <<[prop |-> "C03", kind |-> "coercion", id |-> t.id, line |-> l,
-                detail |-> [dest |-> t.dest, src |-> t.src, mode |-> t.via, got |-> t.got, want |-> want]]>> ELSE <<>>))
+                detail |-> [dest |-> t.dest, src |-> t.src, mode |-> t.via, got |-> t.got, want |-> want]]>>
+             \* C17: WithCoercer replaces coercion for its own schema only (through Ptr, for the pointed-to schema)
+             \o (IF IsCoercerRow(t.dest) THEN <<[prop |-> "C17", kind |-> "coercer-scope", id |-> t.id, line |-> l,
+                     detail |-> [dest |-> t.dest, src |-> t.src, mode |-> t.via, got |-> t.got, want |-> want]]>> ELSE <<>>)
+        ELSE <<>>))
   /\ l' = l + 1
 TFinish ==
   /\ l = Len(Trace) + 1
